@@ -427,7 +427,14 @@ impl Writer {
         };
         // Sync immediately if the strategy is "always"
         if let SyncStrategy::Always = self.ctx.conf.sync {
-            self.writer.sync()?;
+            if let Err(e) = self.writer.sync() {
+                // The entry is in the file but will never be indexed: it is dead data of this
+                // file, and a merge must know about the file even if it holds nothing else
+                self.written_bytes += index.len;
+                let mut stats = self.ctx.stats.entry(self.active_fileid).or_default();
+                stats.add_dead(index.len);
+                return Err(e.into());
+            }
         }
         // Record number of bytes have been written to the active file
         self.written_bytes += index.len;
